@@ -195,6 +195,8 @@ class _CbEval:
                 for ev_ in reversed(trace):
                     if ev_[0] == "expr" and ev_[1] == n.id and isinstance(n.ctx, ast.Load):
                         return clone(ev_[2])
+                    if ev_[0] == "let" and ev_[1] == n.id and isinstance(n.ctx, ast.Load) and (ev_[2] is None or isinstance(ev_[2], bool)):
+                        return ast.copy_location(ast.Constant(value=ev_[2]), n)
                     if ev_[0] in ("let", "forget", "alias") and ev_[1] == n.id:
                         break
                 a = ev._alias(n.id, trace)
@@ -1083,6 +1085,8 @@ MUTANTS = [
     Mutant("init-loops-over-the-argument", D, "        for deferred in self._deferredList:\n            deferred.addCallbacks(", "        for deferred in deferredList:\n            deferred.addCallbacks(",
            expect_rule="init/iterates-the-copied-inputs"),
     Mutant("race-winner-popped-from-inputs", D, "            winner = to_cancel[this_index]\n", "            winner = to_cancel.pop(this_index)\n", expect_rule="race/inputs-list-stable"),
+    Mutant("success-handler-also-swallows-the-value", D, "        if not self.called:\n            if succeeded == SUCCESS and self.fireOnOneCallback:\n                self.callback((result, index))  # type: ignore[arg-type]\n            elif succeeded == FAILURE and self.fireOnOneErrback:\n                assert isinstance(result, Failure)\n                self.errback(Failure(FirstError(result, index)))\n            elif self.finishedCount == len(self.resultList):\n                # At this point, None values in self.resultList have been\n                # replaced by result values, so we cast it to\n                # _DeferredListResultListT to match the callback result type.\n                self.callback(cast(_DeferredListResultListT[Any], self.resultList))\n\n        if succeeded == FAILURE and self.consumeErrors:\n            return None\n\n        return result\n",
+           "        if succeeded == SUCCESS:\n            return self._onGood(result, index)\n        return self._onBad(result, index)\n\n    def _onGood(self, value, position):\n        if not self.called:\n            if self.fireOnOneCallback:\n                self.callback((value, position))\n            else:\n                self._maybeDone()\n        if self.consumeErrors:\n            return None\n        return value\n\n    def _onBad(self, reason, position):\n        if not self.called:\n            if self.fireOnOneErrback:\n                self.errback(Failure(FirstError(reason, position)))\n            else:\n                self._maybeDone()\n        if self.consumeErrors:\n            return None\n        return reason\n\n    def _maybeDone(self):\n        if self.finishedCount == len(self.resultList):\n            self.callback(self.resultList)\n", expect_rule="cb/return-value"),
 ]
 SILENT = [
     Silent("enumerate-index", D, "        index = 0\n        for deferred in self._deferredList:\n", "        for index, deferred in enumerate(self._deferredList):\n",
@@ -1126,4 +1130,6 @@ SILENT = [
                  (D, "    failure_state = []\n", "    failure_state = {}\n"),
                  (D, "        failure_state.append((this_index, failure))\n", "        failure_state[this_index] = failure\n"),
                  (D, "            failure_state.sort()\n            failures = [f for (ignored, f) in failure_state]\n", "            failures = [failure_state[k] for k in sorted(failure_state)]\n")]),
+    Silent("outcome-dispatched-to-two-private-handlers", D, "        if not self.called:\n            if succeeded == SUCCESS and self.fireOnOneCallback:\n                self.callback((result, index))  # type: ignore[arg-type]\n            elif succeeded == FAILURE and self.fireOnOneErrback:\n                assert isinstance(result, Failure)\n                self.errback(Failure(FirstError(result, index)))\n            elif self.finishedCount == len(self.resultList):\n                # At this point, None values in self.resultList have been\n                # replaced by result values, so we cast it to\n                # _DeferredListResultListT to match the callback result type.\n                self.callback(cast(_DeferredListResultListT[Any], self.resultList))\n\n        if succeeded == FAILURE and self.consumeErrors:\n            return None\n\n        return result\n",
+           "        if succeeded == SUCCESS:\n            return self._onGood(result, index)\n        return self._onBad(result, index)\n\n    def _onGood(self, value, position):\n        if not self.called:\n            if self.fireOnOneCallback:\n                self.callback((value, position))\n            else:\n                self._maybeDone()\n        return value\n\n    def _onBad(self, reason, position):\n        if not self.called:\n            if self.fireOnOneErrback:\n                self.errback(Failure(FirstError(reason, position)))\n            else:\n                self._maybeDone()\n        if self.consumeErrors:\n            return None\n        return reason\n\n    def _maybeDone(self):\n        if self.finishedCount == len(self.resultList):\n            self.callback(self.resultList)\n"),
 ]
